@@ -11,7 +11,7 @@
 (***************************************************************************)
 EXTENDS Hist1D
 
-CONSTANTS Containers,     \* e.g. {"list", "tuple", "iter", "ndarray", "ndarray2d", "pd.Series", "pl.Series", "accessor", "dask"}
+CONSTANTS Containers,     \* e.g. {"list", "tuple", "iter", "ndarray", "ndarray2d", "ndarray2d.F", "ndarray2d.T", "pd.Series", "pl.Series", "accessor", "dask"}
           CBatches        \* batches used for the container fan-out
 
 (* all ways of cutting a sequence of n items into consecutive non-empty chunks *)
@@ -27,6 +27,7 @@ ConstructFrom(L, keep, batch, weighted, container, chunks) ==
     /\ weighted \/ AllOnes(batch)
     /\ IsDask(container) => (chunks \in Compositions(Len(batch)) /\ Len(batch) > 0)
     /\ ~IsDask(container) => chunks = <<>>
+    /\ container \in {"ndarray2d.F", "ndarray2d.T"} => (Len(batch) >= 4 /\ Len(batch) % 2 = 0)   \* a (2, n/2) array that is not C-contiguous
     /\ h' = [DepositAll(Empty(L, keep), batch) EXCEPT !.med = FALSE, !.weighted = weighted]
     /\ ghost' = GOfSeq(batch)
 
